@@ -8,6 +8,18 @@ CLAIMED = {
  "C03": ("proof", "UndelegateFrom creates exactly one record whose amount equals the tokens removed, with both indexes pointing at it and completion height = start + constant; SetUndelegationRecords (loop invariants), ValidateUndelegationAmount acceptance condition stated exactly (independent of opt-in/jail state), withdrawal within the withdrawable balance always accepted (PerformDepositOrWithdraw). Index injectivity / prefix lookup and EndBlock release are not yet under contract (see evidence.unclaimed and DESIGN.md)."),
  "C09": ("proof", "err != nil ==> state(ctx) == old(state(ctx)) proved per return path for the keeper-level mutators under contract (asset rows, delegation state, RemoveShareFromOperator, PerformDepositOrWithdraw under the ledger invariant)."),
  "C15": ("proof", "The per-identifier BeginBlocker step is proved against the clock rules of the statement (idle / first tick / next tick, exact stored EpochInfo, end(n) before start(n+1) in the ghost trace, only this identifier's entry written, iteration never stopped); MultiEpochHooks fan-out delivers once per subscriber in index order (loop invariants); the subscriber order in app.go is a static obligation re-derived every run."),
+
+ "C04": ("proof", "SlashFromUndelegation proved equal to its spec (slash = min(trunc(p*original amount), what is left); nothing else in the record changes; nil iff nothing is left), CheckSlashParameter exact acceptance condition, UpdateOperatorSlashInfo (duplicate id rejected, atomic), Keeper.Slash: a reported failure leaves no trace and a slash id is executed at most once (holds after the fix b0edf5a). SlashAssets itself (closures over iterate helpers) is used through an assumed frame only."),
+ "C05": ("proof", "CalculateUSDValue proved equal to amount*price*10^18 div 10^(asset decimals + price decimals) for all inputs, non-negative for non-negative inputs. The per-operator aggregation closures of UpdateVotingPower are not yet under contract (see evidence.unclaimed / DESIGN.md)."),
+ "C06": ("proof", "The order handed to sort.Slice by SortByPower is proved to be power descending with ties broken by ascending operator address; dogfood EndBlock: a non-epoch block reports an empty update list, the loop building the new set never goes past MaxValidators and never includes power < 1 (loop invariants). The diff against the previous set and ApplyValidatorChanges are not under contract."),
+ "C07": ("proof", "setOperatorConsKeyForChainID: guard obligations show that a key is written only when no operator holds its consensus address and the operator is not removing its key, the previous key is recorded (and the replacement hook fired) at most once per epoch; dogfood EndBlock maintains the registry under the chain id without revision. The quantified index-agreement invariant of DESIGN.md is not established."),
+ "C10": ("proof", "Gateway: every assets/delegation precompile transaction method fails without any state change unless contract.CallerAddress equals the configured gateway (CheckExocoreGatewayAddr exact spec); AVS precompile methods hand the keeper the calling contract's own address and require a listed owner for register/update (guard obligations); operator message handlers act for the address GetSigners() reports; UpdateParams of five modules is rejected without state change for a non-authority on mainnet chain ids. Oracle price-submission signature branch is not under contract."),
+ "C12": ("proof", "ExceedsThreshold is proved to be the strict comparison power*ThresholdB > total*ThresholdA; AppendPriceTR accepts exactly the expected next round id, stores the round and advances the stored next round id by exactly one, changes nothing when it rejects (loop invariant over the NST update loop); GetNextRoundID/IncreaseNextRoundID exact. The in-memory aggregator (calculator, filter, worker) is outside the memory model and unclaimed."),
+ "C13": ("proof", "CheckAndIncreaseNonce: accepted only for a known validator and feeder with nonce = stored+1 (first matching entry, loop invariant), nonce above MaxNonce rejected, rejection leaves store and nonce objects untouched. The ante decorators and the aggregator-side message filter are not under contract."),
+ "C16": ("proof", "GetUnbondingCompletionEpoch = current epoch + EpochsUntilUnbonded (exact); AfterUndelegationStarted places a hold and queues the record iff the operator is opting out or its current/previous key is in the validator set, filed under the opt-out finish epoch resp. the completion epoch (guard obligations); hold counts move by exactly one and are refused at the bounds; dogfood EndBlock releases holds only in an epoch-end block. Queue append/clear accessors and AfterEpochEnd are not yet under contract."),
+ "C17": ("proof", "exomint AfterEpochEnd: the epoch reward is minted exactly once (and forwarded) when the identifier matches and the reward is non-zero, nothing is minted or changed otherwise (ghost trace of bank calls); the distribution hook precedes the mint hook in app.go (static obligation). Fee allocation arithmetic (AllocateTokens*) is not under contract."),
+ "C19": ("proof", "GasToRefund = min(available, consumed div quotient); RefundGas pays leftover*gasPrice from the fee collector to the sender, zero refund moves nothing, negative refund rejected, failure leaves no trace; ApplyTransaction runs the message on a cache context whenever hooks are registered (guard). EVM/state-DB behaviour and the ante decorators are external/unclaimed."),
+ "C20": ("proof", "GetTaskID returns old+1 (1 if absent) and stores it; CreateAVSTask draws the id from the counter of the task contract the task is stored under and requires a listed owner; RaiseAndResolveChallenge writes only strictly after the statistical period and within the challenge period, once (guard obligations). SetTaskResultInfo windows and AVS registration uniqueness are not yet under contract."),
 }
 
 NOT_APPLICABLE = {
